@@ -34,7 +34,7 @@ from ..flow import CFG, calls_any
 from ..index import AnalysisError, ClassInfo, FuncInfo, body_without_docstring, call_name, calls_in, dotted, walk_no_nested
 from ..report import Ctx
 
-LEVEL = "proof"
+LEVEL = "other"  # the exhaustive truth tables of R-C14.3 are a finite-domain proof of ONE clause; the property as a whole has a known finding (R-C14.7)
 PROOF_RULES = ("R-C14.3",)
 EXPLANATION = (
     "Finite-domain decisions: the bound/copyable relation is a 4-row truth table evaluated on the expression trees of "
